@@ -98,7 +98,8 @@ open GeomV GeomV.C17 in
 def main (args : List String) : IO Unit := do
   let out ← IO.getStdout
   match args with
-  | ["judge"] => forEachLine fun l => out.putStrLn (judgeLine l)
+  | ["judge"] => forEachLine fun l =>   -- one verdict per line: control characters in quoted texts become blanks
+      out.putStrLn (String.ofList ((judgeLine l).toList.map fun c => if c.toNat < 32 then ' ' else c))
   | ["parse"] => forEachLine fun l =>   -- debugging aid: parse a WKT text given as a line
       out.putStrLn (match Ogc.parse Dec.toBits l.toList with
         | .ok g => "ok " ++ Proto.geomStr g
